@@ -5,6 +5,7 @@ import (
 	"math"
 	"reflect"
 	"sort"
+	"sync/atomic"
 	"time"
 
 	cache "github.com/fufuok/cache"
@@ -278,6 +279,9 @@ func specStrings(sp []cacheSpec) []string {
 	r := make([]string, len(sp))
 	for i, s := range sp {
 		r[i] = fmt.Sprintf("%s/%s exp=%d int=%d cap=%d mask=%d cb=%v", s.Flavor, s.Ctor, s.DefExp, s.Interval, s.MinCap, s.OptMask, s.Callback != nil)
+		if s.PreMask&s.OptMask != 0 {
+			r[i] += fmt.Sprintf(" preceded-by(mask=%d exp=%d int=%d cap=%d)", s.PreMask&s.OptMask, s.PreDefExp, s.PreInterval, s.PreMinCap)
+		}
 	}
 	return r
 }
@@ -885,6 +889,9 @@ func (sr *seqRunner) runSeqCase(cs *seqCase) (nontrivial bool, fp uint64) {
 				in.count = in.c.Count() // the harness's own traversal may have cleaned expired entries
 			}
 		}
+	}
+	if n := atomic.SwapInt64(&preCallbackFired, 0); n != 0 {
+		bad("callback", "a callback option that a later option replaced is invoked", "%d invocations of the overridden callback", cs.NOps-1, n)
 	}
 	for _, in := range insts {
 		if st, ok := in.c.Stats(); ok {
